@@ -31,7 +31,11 @@ AWKWARD = ["Africa/Cairo", "Africa/Casablanca", "Pacific/Apia", "Europe/Dublin",
            "Europe/Berlin", "America/New_York", "America/Sao_Paulo", "Asia/Tehran", "Pacific/Kiritimati", "Africa/Windhoek", "Asia/Pyongyang",
            "America/Havana", "Europe/Lisbon", "Antarctica/Troll", "Asia/Gaza", "UTC", "Etc/GMT+5", "Asia/Kolkata", "Pacific/Fiji", "America/Godthab",
            # zones that pass through offset 0 (timedelta(0) is falsy) in either direction
-           "Atlantic/Azores", "America/Scoresbysund", "Europe/London", "Atlantic/Canary", "Atlantic/Madeira", "Atlantic/Faroe", "Africa/El_Aaiun"]
+           "Atlantic/Azores", "America/Scoresbysund", "Europe/London", "Atlantic/Canary", "Atlantic/Madeira", "Atlantic/Faroe", "Africa/El_Aaiun",
+           # zones that jumped across the date line (offset change of exactly 24 h: equal .seconds)
+           "Pacific/Kwajalein", "Pacific/Fakaofo", "Pacific/Kanton", "Pacific/Kiritimati", "Pacific/Apia",
+           # the only zone with a sub-minute offset after 1970 (-0:44:30 until 1972-01-07)
+           "Africa/Monrovia", "Africa/Monrovia"]
 
 
 @functools.lru_cache(maxsize=None)
@@ -205,6 +209,8 @@ def judge(case):
             tag = classify(provider, trs, t, converted=True)
             if got_b[0] == "raises" and big_jump:
                 tag = "@24h-jump"
+            if provider == "pytz" and want[0].total_seconds() % 60:
+                tag = "@sub-minute-offset"       # RC-AW: pytz zones only hold whole-minute offsets (localised from the source zone's offset)
             if got_b != want and ("b", tag) not in seen:
                 seen.add(("b", tag))
                 fails.append(Failure(f"C13.converted-zone{tag}", f"converted-zone-differs{tag}", f"{zone} t={t}Z: converted {got_b!r}, source zone {want!r}"))
@@ -285,6 +291,10 @@ def cases(draw, grid_days=5):
     zone = draw(st.one_of(st.sampled_from(all_zones()), st.sampled_from(AWKWARD)))
     y0 = draw(st.integers(1970, 2035))
     span = draw(st.sampled_from([1, 1, 2, 3, 5, 8, 15, 30]))
+    if zone in ("Pacific/Kwajalein", "Pacific/Fakaofo", "Pacific/Kanton", "Pacific/Kiritimati", "Pacific/Apia", "Pacific/Enderbury") and draw(st.booleans()):
+        y0, span = draw(st.sampled_from([1990, 1992, 2009, 2010])), 5       # a window around the jump across the date line
+    if zone == "Africa/Monrovia" and draw(st.booleans()):
+        y0, span = 1970, draw(st.sampled_from([1, 3]))
     y1 = min(2038, y0 + span)
     first = [y0, draw(st.integers(1, 12)), draw(st.integers(1, 28))]
     last = [y1, draw(st.integers(1, 12)), draw(st.integers(1, 28))]
